@@ -133,6 +133,27 @@ func IterateImportedDecls(imprt *ImportStmt, fun func(name string, decl Declarat
 	}
 }
 
+// returns the names of the given arguments (of a function call or struct literal)
+// ordered by the position of the argument in the source code,
+// so that iterating them does not depend on the random iteration order of the map
+func ArgNamesInSourceOrder(args map[string]Expression) []string {
+	names := make([]string, 0, len(args))
+	for name := range args {
+		names = append(names, name)
+	}
+	sort.Slice(names, func(i, j int) bool {
+		iStart, jStart := args[names[i]].GetRange().Start, args[names[j]].GetRange().Start
+		if iStart.Line != jStart.Line {
+			return iStart.Line < jStart.Line
+		}
+		if iStart.Column != jStart.Column {
+			return iStart.Column < jStart.Column
+		}
+		return names[i] < names[j]
+	})
+	return names
+}
+
 func toPointerSlice[T any](slice []T) []*T {
 	result := make([]*T, len(slice))
 	for i := range slice {
